@@ -305,3 +305,144 @@ Proof.
       destruct (rv_core_ok sem r' j ln added Hi) as (cols' & es & E2 & Hat).
       rewrite E2. eexists _, _. split; [reflexivity|]. apply Forall_app. split; assumption.
 Qed.
+
+(* ---------- the file shape: read_header_lines against split_file ---------- *)
+Lemma read_header_lines_spec (ls : list str) : forall n acc,
+  read_header_lines ls n acc =
+  (acc ++ map rstrip_crlf (fst (split_file ls)),
+   match snd (split_file ls) with Some (c, _) => Some (rstrip_crlf c) | None => None end,
+   n + Z.of_nat (length (fst (split_file ls))) + match snd (split_file ls) with Some _ => 1 | None => 0 end,
+   match snd (split_file ls) with Some (_, d) => d | None => [] end).
+Proof.
+  induction ls as [|l rest IH]; intros n acc.
+  - simpl. rewrite app_nil_r. replace (n + 0 + 0) with n by lia. reflexivity.
+  - change (read_header_lines (l :: rest) n acc)
+      with (if startswith (rstrip_crlf l) [HASH]
+            then read_header_lines rest (n + 1) (acc ++ [rstrip_crlf l])
+            else (acc, Some (rstrip_crlf l), n + 1, rest)).
+    change (split_file (l :: rest))
+      with (if is_pragma l then let '(h, t) := split_file rest in (l :: h, t) else ([], Some (l, rest))).
+    unfold is_pragma. destruct (startswith (rstrip_crlf l) [HASH]).
+    + rewrite IH. destruct (split_file rest) as [h t]. cbn [fst snd length map].
+      rewrite <- app_assoc. cbn [app].
+      replace (n + 1 + Z.of_nat (length h)) with (n + Z.of_nat (S (length h))) by lia.
+      reflexivity.
+    + cbn [fst snd length map]. rewrite app_nil_r. replace (n + Z.of_nat 0 + 1) with (n + 1) by lia. reflexivity.
+Qed.
+
+Lemma split_file_app (ls : list str) :
+  let '(h, t) := split_file ls in
+  ls = h ++ match t with Some (c, d) => c :: d | None => [] end.
+Proof.
+  induction ls as [|l rest IH]; [reflexivity|].
+  change (split_file (l :: rest))
+    with (if is_pragma l then let '(h, t) := split_file rest in (l :: h, t) else ([], Some (l, rest))).
+  destruct (is_pragma l); [|reflexivity].
+  destruct (split_file rest) as [h t]. cbn [app]. now rewrite <- IH.
+Qed.
+
+Section ReaderTotal.
+  Context {C W : Type}.
+  Variable sem : colsem C W.
+  Notation cls := (cls C).
+  Notation scheme := (scheme cls).
+  Notation mrec := (mrec C W).
+  Notation payload := (payload C W).
+  Variable registry : list scheme.
+  Context {K : Type}.
+  Variable key_of : sorder -> list str -> rec payload -> res K.
+  Variable key_lt : K -> K -> bool.
+  Hypothesis key_total : forall o cs r, match key_of o cs r with Ok _ => True | Raise e => e = ValueError end.
+  Notation iterate := (iterate sem key_of key_lt).
+
+  (* schemes are dicts: their column names are distinct *)
+  Definition scheme_wf (s : scheme) : Prop := NoDup (s_names s).
+
+  (* one parsed line: a record at that line whose errors all carry the line
+     number, or (Strict only) the format exception *)
+  Lemma from_line_cases (s : scheme) cur ln m lg :
+    scheme_wf s ->
+    (exists lg' r, from_line sem cur None (Some s) ln (Some m) lg = (lg', Ok r) /\
+                   mline r = ln /\ at_line ln (merrs r)) \/
+    (m = Strict /\ exists e0, from_line sem cur None (Some s) ln (Some m) lg = ([], Raise (format_of e0))).
+  Proof.
+    intros Hwf. destruct (fl_core_total sem s cur ln Hwf) as (cols & errs & E & Hat).
+    rewrite from_line_unfold. unfold finish. rewrite E.
+    destruct m.
+    - destruct errs as [|e0 er].
+      + left. simpl. eexists _, _. split; [reflexivity|]. split; [reflexivity|constructor].
+      + right. split; [reflexivity|]. exists e0. reflexivity.
+    - left. rewrite process_lenient. simpl. eexists _, _. split; [reflexivity|]. split; [reflexivity|exact Hat].
+    - left. rewrite process_silent. simpl. eexists _, _. split; [reflexivity|]. split; [reflexivity|exact Hat].
+  Qed.
+
+  Lemma check_order_raises o cs last r e :
+    check_order key_of key_lt o cs last r = Raise e -> e = ValueError /\ sortable o = true.
+  Proof.
+    intros H. split; [eapply check_order_not_format; eauto|].
+    unfold check_order in H. destruct last as [lr|]; [|discriminate].
+    destruct (mrec_truthy lr); simpl in H; [|discriminate].
+    destruct (sortable o); [reflexivity|discriminate].
+  Qed.
+
+  (* how an iteration can end, and how many records it yields; every yielded
+     record carries the physical number of its line, as do its errors *)
+  Lemma iterate_total pending : forall cur n (s : scheme) m o cs last,
+    scheme_wf s ->
+    let t := iterate cur n pending (Some s) m o cs last in
+    match tr_end t with
+    | EndStop => length (tr_recs t) = S (length pending)
+    | EndRaise (MafFormat _ _) => m = Strict
+    | EndRaise ValueError => sortable o = true
+    | EndRaise _ => False
+    end /\
+    (forall j rj, nth_error (tr_recs t) j = Some rj ->
+       mline rj = Some (n + Z.of_nat j) /\ at_line (Some (n + Z.of_nat j)) (merrs rj) /\
+       exists lg, from_line sem (nth j (cur :: map rstrip_crlf pending) []) None (Some s)
+                            (Some (n + Z.of_nat j)) (Some m) LgRoot = (lg, Ok rj)) /\
+    (exists tail, tr_errs t = concat (map (@merrs C W) (tr_recs t)) ++ tail /\
+                  at_line (Some (n + Z.of_nat (length (tr_recs t)))) tail).
+  Proof.
+    induction pending as [|l pending IH]; intros cur n s m o cs last Hwf; cbv zeta;
+      rewrite iterate_eq;
+      destruct (from_line_cases s cur (Some n) m LgRoot Hwf) as [(lg & r & E & Hl & Hat)|(-> & e0 & E)];
+      rewrite E.
+    - (* last line, parsed *)
+      destruct (check_order key_of key_lt o cs last r) as [[]|e] eqn:EC;
+        unfold tr_end, tr_recs, tr_errs; simpl.
+      + split; [reflexivity|]. split.
+        * intros [|[|j]] rj Hj; try discriminate. injection Hj as <-. simpl.
+          rewrite Z.add_0_r. split; [exact Hl|]. split; [exact Hat|]. exists lg. exact E.
+        * exists []. rewrite !app_nil_r. split; [reflexivity|constructor].
+      + apply check_order_raises in EC as [-> Hs]. split; [exact Hs|]. split.
+        * intros [|j] rj; discriminate.
+        * exists (merrs r). split; [reflexivity|]. simpl. now rewrite Z.add_0_r.
+    - (* last line, Strict failure *)
+      unfold tr_end, tr_recs, tr_errs; simpl. split; [reflexivity|]. split.
+      + intros [|j] rj; discriminate.
+      + exists []. split; [reflexivity|constructor].
+    - (* a line pending, parsed *)
+      destruct (check_order key_of key_lt o cs last r) as [[]|e] eqn:EC.
+      + specialize (IH (rstrip_crlf l) (n + 1) s m o cs (Some r) Hwf). cbv zeta in IH.
+        destruct IH as (I1 & I2 & (tail & I3 & I4)).
+        unfold tr_end, tr_recs, tr_errs in *; simpl. split; [|split].
+        * destruct (snd (fst (iterate (rstrip_crlf l) (n + 1) pending (Some s) m o cs (Some r)))) as [|ex]; [|exact I1].
+          simpl. now rewrite I1.
+        * intros [|j] rj Hj; simpl in Hj.
+          -- injection Hj as <-. rewrite Z.add_0_r. split; [exact Hl|]. split; [exact Hat|]. exists lg. exact E.
+          -- destruct (I2 j rj Hj) as (J1 & J2 & J3).
+             replace (n + Z.of_nat (S j)) with (n + 1 + Z.of_nat j) by lia.
+             split; [exact J1|]. split; [exact J2|]. exact J3.
+        * exists tail. rewrite I3. simpl. rewrite <- app_assoc. split; [reflexivity|].
+          replace (n + Z.pos (Pos.of_succ_nat (length (snd (fst (fst (iterate (rstrip_crlf l) (n + 1) pending (Some s) m o cs (Some r))))))))
+            with (n + 1 + Z.of_nat (length (snd (fst (fst (iterate (rstrip_crlf l) (n + 1) pending (Some s) m o cs (Some r))))))) by lia.
+          exact I4.
+      + apply check_order_raises in EC as [-> Hs].
+        unfold tr_end, tr_recs, tr_errs; simpl. split; [exact Hs|]. split.
+        * intros [|j] rj; discriminate.
+        * exists (merrs r). split; [reflexivity|]. simpl. now rewrite Z.add_0_r.
+    - unfold tr_end, tr_recs, tr_errs; simpl. split; [reflexivity|]. split.
+      + intros [|j] rj; discriminate.
+      + exists []. split; [reflexivity|constructor].
+  Qed.
+End ReaderTotal.
